@@ -2112,6 +2112,7 @@ func (s *Server) handleMessagesPublish(w http.ResponseWriter, r *http.Request) {
 	managedRoutes, managedRoutesAvailable := s.managedRouteSet()
 	prepared := make([]queue.Envelope, 0, len(items))
 	for idx, item := range items {
+		verifhook.Point("admin.publish.item")
 		route := strings.TrimSpace(item.Route)
 		target := strings.TrimSpace(item.Target)
 		application := strings.TrimSpace(item.Application)
@@ -3360,6 +3361,7 @@ func (s *Server) handleApplicationEndpointPublish(w http.ResponseWriter, r *http
 
 	prepared := make([]queue.Envelope, 0, len(items))
 	for idx, item := range items {
+		verifhook.Point("admin.publish.item")
 		if publishItemHasSelectorHints(item) {
 			s.writePublishError(w, http.StatusBadRequest, publishCodeScopedSelectorForbidden, "item selector hints are not allowed on endpoint-scoped publish", idx, true)
 			return
